@@ -21,7 +21,7 @@ CONSTANTS
   FixBlocking = TRUE
   FixCopyParked = TRUE
   FixCopyOfWoken = TRUE
-INVARIANTS TypeOK WindowShape WindowSufficient GapFreeInOrder NoDuplicate SkipMonotone EOSOnlyWhen CloseWakesAll NoLostWaiter PosConsistent FreeListSound
-PROPERTIES RecentIsNewest BehindSkipsOnlyDropped NotReadyOnlyWhen CopyIndependent GrowOnlyWhenFull
+INVARIANTS TypeOK GapFreeInOrder NoDuplicate EOSOnlyWhen NoLostWaiter PosConsistent FreeListSound
+PROPERTIES CopyIndependent
 CONSTRAINT NobodyLeft
 CHECK_DEADLOCK FALSE
